@@ -598,7 +598,17 @@ class History:
             elif r["served"] and not must and self.is_alias(table, id_, r["raw"], r["got"], R0):
                 mech = M_ALIAS  # the entry edited by the caller before the phase, served before any update popped it
             elif spy is not None and r["served"]:
-                evs = [e for e in spy.log if e[2] == id_ and t_start < e[0] < r["t1"] and e[1] in ("pop", "insert")]
+                # the cache events of this id in the phase, up to the hit that served this read: a hit inside the
+                # read's own window whose latest preceding pop/insert event is the insert of exactly the row returned
+                # (the jitter after the call lets later pops happen before the read is seen to return)
+                phase = [e for e in spy.log if e[2] == id_ and t_start < e[0] < r["t1"]]
+                evs = []
+                for i in range(len(phase) - 1, -1, -1):
+                    if phase[i][1] == "hit" and phase[i][0] > r["t0"]:
+                        prior = [e for e in phase[:i] if e[1] in ("pop", "insert")]
+                        if prior and prior[-1][1] == "insert" and prior[-1][3] == O.canon(r["got"]):
+                            evs = prior
+                            break
                 # all states "initial + strict subset of the updates"
                 older = set()
                 for mask in range((1 << len(ups)) - 1):
